@@ -4,14 +4,19 @@ import json
 from pathlib import Path
 ROOT = Path(__file__).resolve().parents[1]
 
-CHECKS = {
- "C09": dict(level="model_checking", design="3 (C09)", technique="TLA+ spec (TrackStore.tla) model-checked with TLC; every TLC-enumerated behaviour replayed into the real TrackStore",
-   text="TLC explores the complete state graph of a reduced store instance (invariants, merge frame assertions, reachability witnesses) and enumerates every operation sequence of depth 2 (thorough: depth 3, 300-step simulations) over the API alphabet; each behaviour is replayed into the real sharded store for several shard counts and every return value / projected store state is compared with the value TLC computed from the specification.",
-   note="Trusted: TLC, the harness doubles (attributes/metric/notifier) implement what Track.tla models; ids/classes/values from a small alphabet; error variants are not distinguished."),
- "C11": dict(level="fault_enumeration", design="3 (C11)", technique="TLA+ spec (Track.tla) with a fault parameter; TLC enumerates every fault position, cases replayed into real tracks and the real store",
-   text="Exhaustive enumeration by TLC of every (destination shape, source shape, class list, history flag, failing callback invocation) for Track::merge and every add_observation variant (thorough: two-merge sequences), with C11 asserted on the specification's operators; each case is applied to real tracks whose callbacks fail exactly there and the five mutable parts plus the notification count are compared; the store-level part replays the TrackStore behaviours with faults.",
-   note="Trusted: TLC; faults are injected only through the user callbacks (apply / attribute merge / optimise); shapes have 0..2 observations in up to 3 classes."),
-}
+import importlib, sys
+sys.path.insert(0, str(ROOT)); sys.path.insert(0, str(ROOT / "lib"))
+
+def collect():
+    """Each checks/cNN.py carries its own MANIFEST dict (level, design, technique, text, note)."""
+    out = {}
+    for f in sorted((ROOT / "checks").glob("c[0-9][0-9].py")):
+        mod = importlib.import_module(f"checks.{f.stem}")
+        if hasattr(mod, "MANIFEST"):
+            out[f.stem.upper()] = mod.MANIFEST
+    return out
+
+CHECKS = collect()
 
 NOT_YET = {}
 
